@@ -1,11 +1,163 @@
 import StorageModel.Driver.Common
-/- model driver for C17: `run spec` reads case lines on stdin and prints one output line per case
-   (spec = false: the engine model's output; spec = true: the spec's verdict). -/
-namespace StorageModel.Driver.C17
-open StorageModel.Driver
+import StorageModel.C17.Snapshot
+import StorageModel.C17.LockTable
+import StorageModel.Generated.DbLocks
+/- model driver for C17 (line protocol documented in /verif/harness/c17.go).
 
-def step (_line : String) : String := "not-implemented"
-def specStep (_line : String) : String := "not-implemented"
+   default mode : case line                  -> the model's observations
+   `spec` mode  : case line TAB impl output  -> `ok`, or `fail@<i>:<op>` naming the first operation at
+                                                which the property's clauses fail on the IMPLEMENTATION's
+                                                observations (`specHolds`), `unparsed` when the
+                                                observations are not in the vocabulary -/
+namespace StorageModel.Driver.C17
+open StorageModel.Driver StorageModel.C17 StorageModel.C17.Lock
+
+def parseWrite (w : String) : Option Write :=
+  match w.toList with
+  | 'p' :: rest =>
+    match (String.ofList rest).splitOn "." with
+    | [k, v] => do pure (.put (← k.toNat?) (← v.toNat?))
+    | _ => none
+  | 'd' :: rest => do pure (.del (← (String.ofList rest).toNat?))
+  | _ => none
+
+def parseWrites (s : String) : Option (List Write) :=
+  if s.isEmpty then some [] else (s.splitOn "/").filter (· ≠ "") |>.mapM parseWrite
+
+def parseMode : String → Option Mode
+  | "d" => some .default
+  | "i" => some .initIfEmpty
+  | "f" => some .forceReset
+  | _ => none
+
+def parseOp (tok : String) : Option Op :=
+  match tok.splitOn ":" with
+  | ["tx", ws, c] => do pure (.tx (← parseWrites ws) (c == "c"))
+  | ["snap", k] => do pure (.snap (← k.toNat?) false)
+  | ["snapt", k] => do pure (.snap (← k.toNat?) true)
+  | ["snapu", k, ws] => do pure (.snapUpd (← k.toNat?) (← parseWrites ws))
+  | ["snapf"] => some .snapFail
+  | ["stream", k] => do pure (.stream (← k.toNat?))
+  | ["rest", k] => do pure (.restore (← k.toNat?) false)
+  | ["restr", k] => do pure (.restore (← k.toNat?) true)
+  | ["gsid"] => some .gsid
+  | ["gtl", m, ok] => do pure (.gtl (← parseMode m) (ok == "1"))
+  | ["listen"] => some .listen
+  | ["dump"] => some .dump
+  | _ => none
+
+def optNat (o : Option Nat) : String := match o with | some n => toString n | none => "-"
+
+def renderDb (d : Db) : String :=
+  let c := if d.content.isEmpty then "-" else ",".intercalate (d.content.map fun kv => s!"{kv.1}={kv.2}")
+  let m := if d.mt.present then
+      "s" ++ optNat d.mt.sid ++ ",r" ++ (match d.mt.rt with | some true => "1" | some false => "0" | none => "-") ++
+      ",t" ++ optNat d.mt.tl
+    else "-"
+  c ++ ";" ++ m
+
+def renderObs : Obs → String
+  | .ok => "ok"
+  | .err => "err"
+  | .snapped id d => s!"snapped:{id}:{renderDb d}"
+  | .streamed d => s!"streamed:{renderDb d}"
+  | .restored f d => s!"restored:{f}:{renderDb d}"
+  | .nofile => "nofile"
+  | .sid id => "sid:" ++ (match id with | some n => toString n | none => "nil")
+  | .tl id c => s!"tl:{optNat id}:{c}"
+  | .tlerr c => s!"tlerr:{c}"
+  | .dump d => s!"dump:{renderDb d}"
+
+def parseOptNat (s : String) : Option (Option Nat) :=
+  if s == "-" then some none else (s.toNat?).map some
+
+def parseKv (s : String) : Option (Nat × Nat) :=
+  match s.splitOn "=" with
+  | [k, v] => do pure (← k.toNat?, ← v.toNat?)
+  | _ => none
+
+def parseDb (s : String) : Option Db :=
+  match s.splitOn ";" with
+  | [c, m] => do
+    let content ← if c == "-" then some [] else (c.splitOn ",").mapM parseKv
+    let mt ← if m == "-" then some ({} : Meta) else
+      match m.splitOn "," with
+      | [a, b, t] =>
+        match a.toList, b.toList, t.toList with
+        | 's' :: a', 'r' :: b', 't' :: t' => do
+          let sid ← parseOptNat (String.ofList a')
+          let rt ← (match String.ofList b' with
+            | "1" => some (some true) | "0" => some (some false) | "-" => some none | _ => none)
+          let tl ← parseOptNat (String.ofList t')
+          pure { present := true, sid := sid, rt := rt, tl := tl }
+        | _, _, _ => none
+      | _ => none
+    pure { content := content, mt := mt }
+  | _ => none
+
+def parseObs (tok : String) : Option Obs :=
+  match tok.splitOn ":" with
+  | ["ok"] => some .ok
+  | ["err"] => some .err
+  | ["snapped", id, d] => do pure (.snapped (← id.toNat?) (← parseDb d))
+  | ["streamed", d] => do pure (.streamed (← parseDb d))
+  | ["restored", f, d] => do pure (.restored (← f.toNat?) (← parseDb d))
+  | ["nofile"] => some .nofile
+  | ["sid", "nil"] => some (.sid none)
+  | ["sid", n] => do pure (.sid (some (← n.toNat?)))
+  | ["tl", id, c] => do pure (.tl (← parseOptNat id) (← c.toNat?))
+  | ["tlerr", c] => do pure (.tlerr (← c.toNat?))
+  | ["dump", d] => do pure (.dump (← parseDb d))
+  | _ => none
+
+/-- allowed outcomes of a concurrent population, from the regenerated lock table: only `ok` when
+    every program is flat (theorems `no_mixed_view`, `no_deadlock_flat`), `ok|hang` when some
+    program takes the read lock re-entrantly (deadlock reachable, see Properties/C17) -/
+def kindEntry : Char → String
+  | 'r' => "View" | 'w' => "Update" | 'b' => "Batch" | 's' => "Snapshot" | 't' => "StreamToWriter"
+  | 'g' => "GetSnapshotId" | 'l' => "GetTimelineId" | _ => ""
+
+def concOutcomes (kinds : String) : String :=
+  let t := Generated.dbLockPrograms
+  if !(restoreModelled t && txProgsGuarded t) then "unmodelled"
+  else
+    let txs := kinds.toList.filter (· != 'R')
+    if txs.all (fun c => txProgFlat t (kindEntry c)) then "ok" else "ok|hang"
+
+def stageOutcomes (which : String) : String :=
+  let t := Generated.dbLockPrograms
+  if !(restoreModelled t && txProgsGuarded t) then "unmodelled"
+  else match which with
+    | "snapintx" => if takesReadLock t "SnapshotInTx" then "ok|hang" else "ok"
+    | "rootbucket" => if takesReadLock t "RootBucket" then "ok|hang" else "ok"
+    | _ => "ok"
+
+def step (line : String) : String :=
+  match splitSp line with
+  | "seq" :: toks =>
+    match toks.mapM parseOp with
+    | some ops => " ".intercalate ((StorageModel.C17.run {} ops).2.map renderObs)
+    | none => "bad-case"
+  | ["conc", kinds, _, _] => concOutcomes kinds
+  | ["stage", which] => stageOutcomes which
+  | _ => "bad-case"
+
+def specStep (line : String) : String :=
+  match line.splitOn "\t" with
+  | [case, impl] =>
+    match splitSp case with
+    | "seq" :: toks =>
+      match toks.mapM parseOp, (splitSp impl).mapM parseObs with
+      | some ops, some obs =>
+        if obs.length != ops.length then "unparsed"
+        else match specFirstFail {} ops obs 0 with
+          | none => "ok"
+          | some i => s!"fail@{i}:{toks.getD i "?"}"
+      | _, _ => "unparsed"
+    | "conc" :: _ => if impl == "ok" then "ok" else "fail:" ++ ((impl.splitOn ":").headD "?")
+    | "stage" :: _ => if impl == "ok" then "ok" else "fail:" ++ ((impl.splitOn ":").headD "?")
+    | _ => "bad-case"
+  | _ => "bad-case"
 
 def run (spec : Bool) : IO Unit := forEachLine (if spec then specStep else step)
 
